@@ -212,7 +212,7 @@ fn main() {
         root_seed,
         threads,
         known,
-        replay_dir: format!("{base}/replays"),
+        replay_dir: std::env::var("VERIF_REPLAY_DIR").unwrap_or_else(|_| format!("{base}/replays")),
         started: Instant::now(),
     };
     println!("VERIF_SEED={root_seed} property={} tier={} threads={threads}", ctx.prop, ctx.tier.as_str());
@@ -249,7 +249,9 @@ fn main() {
     }
 
     let report = p.report;
-    simcore::evidence::write(&ctx, &report, &p.assumptions, &format!("{base}/evidence/{}.json", ctx.prop));
+    // seeded-change campaigns (tools/run_seeded.sh) keep their output away from the committed evidence
+    let evidence_dir = std::env::var("VERIF_EVIDENCE_DIR").unwrap_or_else(|_| format!("{base}/evidence"));
+    simcore::evidence::write(&ctx, &report, &p.assumptions, &format!("{evidence_dir}/{}.json", ctx.prop));
     for part in &report.parts {
         println!("part {part}");
     }
